@@ -46,6 +46,13 @@ class LogAgent(Agent):
                     ev = DelayedEvent("pong", self.id, rcv, delay, data=uid)
                 m.log.append(("sent", self.id, rcv, uid, k, delay))
                 m.enqueue_event(ev)
+        # scripted population changes from inside act: script["act"][k] = {agent id: [ops]}
+        for op in m.script.get("act", {}).get(str(k), {}).get(str(self.id), []):
+            m.log.append(("op", "act", op, self.id))
+            if op[0] == "create":
+                m.create_agent(op[1], copy.deepcopy(op[2]) if len(op) > 2 else None)
+            elif op[0] == "delete":
+                m.delete_agent(op[1])
         # scripted state changes / property changes: script["state"][k] = {id: state}
         st = m.script.get("state", {}).get(str(k), {}).get(str(self.id))
         if st is not None:
